@@ -198,6 +198,53 @@ impl<S: Storage> Builder<S> {
         })
     }
 
+    /// Resolve the key lists of a hash or merge join.
+    ///
+    /// The join executors compare keys as `DataValue`s, for which `Int32(1) != Int64(1)`, while
+    /// `=` compares numbers of different types by value. A pair of numeric keys of different
+    /// types is therefore cast to the wider of the two types.
+    fn resolve_join_keys(
+        &mut self,
+        lkeys: Id,
+        rkeys: Id,
+        left: Id,
+        right: Id,
+    ) -> (RecExpr, RecExpr) {
+        let mut lids = self.node(lkeys).as_list().to_vec();
+        let mut rids = self.node(rkeys).as_list().to_vec();
+        let mut casted = false;
+        for (l, r) in lids.iter_mut().zip(rids.iter_mut()) {
+            let (Ok(lt), Ok(rt)) = (
+                self.egraph[*l].data.type_.clone(),
+                self.egraph[*r].data.type_.clone(),
+            ) else {
+                continue;
+            };
+            if std::mem::discriminant(&lt) == std::mem::discriminant(&rt)
+                || !lt.is_number()
+                || !rt.is_number()
+            {
+                continue;
+            }
+            let (key, ty) = if lt < rt { (l, rt) } else { (r, lt) };
+            let ty = self.egraph.add(Expr::Type(ty));
+            *key = self.egraph.add(Expr::Cast([ty, *key]));
+            casted = true;
+        }
+        let (lkeys, rkeys) = if casted {
+            (
+                self.egraph.add(Expr::List(lids.into())),
+                self.egraph.add(Expr::List(rids.into())),
+            )
+        } else {
+            (lkeys, rkeys)
+        };
+        (
+            self.resolve_column_index(lkeys, left),
+            self.resolve_column_index(rkeys, right),
+        )
+    }
+
     /// Returns the catalog.
     fn catalog(&self) -> &RootCatalogRef {
         self.optimizer.catalog()
@@ -494,9 +541,10 @@ impl<S: Storage> Builder<S> {
     fn build_hashjoin<const T: JoinType>(&mut self, args: [Id; 6]) -> BoxedExecutor {
         let [_, cond, lkeys, rkeys, left, right] = args;
         assert_eq!(self.node(cond), &Expr::true_());
+        let (left_keys, right_keys) = self.resolve_join_keys(lkeys, rkeys, left, right);
         HashJoinExecutor::<T> {
-            left_keys: self.resolve_column_index(lkeys, left),
-            right_keys: self.resolve_column_index(rkeys, right),
+            left_keys,
+            right_keys,
             left_types: self.plan_types(left).to_vec(),
             right_types: self.plan_types(right).to_vec(),
         }
@@ -505,17 +553,18 @@ impl<S: Storage> Builder<S> {
 
     fn build_hashsemijoin(&mut self, args: [Id; 6], anti: bool) -> BoxedExecutor {
         let [_, cond, lkeys, rkeys, left, right] = args;
+        let (left_keys, right_keys) = self.resolve_join_keys(lkeys, rkeys, left, right);
         if self.node(cond) == &Expr::true_() {
             HashSemiJoinExecutor {
-                left_keys: self.resolve_column_index(lkeys, left),
-                right_keys: self.resolve_column_index(rkeys, right),
+                left_keys,
+                right_keys,
                 anti,
             }
             .execute(self.build_id(left), self.build_id(right))
         } else {
             HashSemiJoinExecutor2 {
-                left_keys: self.resolve_column_index(lkeys, left),
-                right_keys: self.resolve_column_index(rkeys, right),
+                left_keys,
+                right_keys,
                 condition: self.resolve_column_index2(cond, left, right),
                 left_types: self.plan_types(left).to_vec(),
                 right_types: self.plan_types(right).to_vec(),
@@ -528,9 +577,10 @@ impl<S: Storage> Builder<S> {
     fn build_mergejoin<const T: JoinType>(&mut self, args: [Id; 6]) -> BoxedExecutor {
         let [_, cond, lkeys, rkeys, left, right] = args;
         assert_eq!(self.node(cond), &Expr::true_());
+        let (left_keys, right_keys) = self.resolve_join_keys(lkeys, rkeys, left, right);
         MergeJoinExecutor::<T> {
-            left_keys: self.resolve_column_index(lkeys, left),
-            right_keys: self.resolve_column_index(rkeys, right),
+            left_keys,
+            right_keys,
             left_types: self.plan_types(left).to_vec(),
             right_types: self.plan_types(right).to_vec(),
         }
